@@ -7,7 +7,8 @@
    codes: 0 agree (or input outside the model, counted by the harness);
           1 the twin renders a different text than the implementation (correspondence broken);
           2 the position is neither -1 nor a byte offset inside the query      (property violated)
-          3 a parse/check error's position is not -1, 0 or a token start        (property violated)
+          3 a parse/check error's position is not -1, 0 or a token start        (property violated;
+            token starts as the lexer twin computes them from the query text, where it covers it)
           4 the rendered text does not show the surrounding stretch with the caret under the
             byte at the position                                                (property violated)
           5 rendering the error panicked                                        (property violated)
@@ -17,7 +18,7 @@
    is code 1 (the hypothesis under which err_pos_is_token_start_partial is stated does not hold
    of the implementation). *)
 From Coq Require Import String Ascii ZArith NArith List Bool.
-From KV Require Import Model.Token Model.Ast Model.ErrRender Model.ErrPos Spec.CaretSpec.
+From KV Require Import Model.Token Model.Ast Model.ErrRender Model.ErrPos Spec.CaretSpec Model.Lexer.
 Import ListNotations.
 Local Open Scope string_scope.
 Local Open Scope Z_scope.
@@ -90,12 +91,23 @@ Definition spec_caret (c : ncase) (obs : string) : bool :=
     end
   else true.
 
+(* the token starts of the query: where the lexer twin (Model/Lexer.v, proved against the
+   lexical specification in C16) covers the text, ITS offsets -- the property speaks of the
+   query's tokens, not of whatever offsets Lexer.Split reports; otherwise the reported ones *)
+Definition true_starts (c : ncase) : list Z :=
+  if lex_oom (cquery c) then ctoks c
+  else map (fun t => Z.of_nat (pos t)) (lex (cquery c)).
+
+Definition zlist_eqb (a b : list Z) : bool :=
+  Nat.eqb (List.length a) (List.length b) && forallb (fun p => Z.eqb (fst p) (snd p)) (combine a b).
+
 Definition spec_code (c : ncase) : nat :=
   match cobs c with
   | None => 5
   | Some obs =>
       if (0 <? corigin c)%nat && negb (pos_in_query (cquery c) (cpos c)) then 2
-      else if (corigin c =? 1)%nat && negb (pos_is_token_start (ctoks c) (cpos c)) then 3
+      else if (corigin c =? 1)%nat && negb (pos_is_token_start (true_starts c) (cpos c)) then 3
+      else if (corigin c =? 1)%nat && negb (zlist_eqb (true_starts c) (ctoks c)) then 1
       else if negb (spec_caret c obs) then 4
       else 0
   end.
